@@ -224,6 +224,24 @@ func (cl *Cluster) SConnOf(c *simnet.Conn) *SConn {
 	return cl.bySim[c]
 }
 
+// HasHeld reports whether an undelivered reply with one of the labels is held for sc.
+func (cl *Cluster) HasHeld(sc *SConn, labels ...string) bool {
+	for _, r := range cl.held {
+		if r.SC != sc {
+			continue
+		}
+		for _, l := range labels {
+			if r.Label == l {
+				return true
+			}
+		}
+	}
+	return false
+}
+
+// Partial reports whether a reply has been delivered in part on the connection.
+func (cl *Cluster) Partial(sc *SConn) bool { return sc.partial != nil }
+
 // Held returns the undelivered replies, oldest first.
 func (cl *Cluster) Held() []*Reply { return cl.held }
 
